@@ -133,7 +133,7 @@ def _bxor(a, b):
         return _bnot(b)
     if b == 1:
         return _bnot(a)
-    if a == b:
+    if a == b and a[0] == "c":
         return 0
     if a[0] == "c" and b[0] == "c" and a[1] == b[1] and a[2] == b[2]:
         return 1
@@ -271,6 +271,25 @@ def bv(t):
         k = t.args[1].args[0].bit_length() - 1
         a = bv(t.args[0])
         r = ([0] * min(k, n) + a)[:n]
+    elif op == "mul" and (t.args[1].op == "k" or t.args[0].op == "k"):
+        kx, x = (t.args[1], t.args[0]) if t.args[1].op == "k" else (t.args[0], t.args[1])
+        c = kx.args[0]
+        a = bv(x)
+        if all(b == 0 for b in a[1:]):
+            # x is 0 or 1: the product is c masked by that bit
+            r = [(a[0] if (c >> i) & 1 else 0) for i in range(n)]
+        else:
+            # bit i of x*c depends on bits 0..i of x only
+            r = []
+            acc = frozenset()
+            allzero = True
+            for i in range(n):
+                acc = acc | _dep_of(a[i])
+                allzero = allzero and a[i] == 0
+                r.append(0 if allzero else _mkdep(acc))
+            tz = (c & -c).bit_length() - 1 if c else n
+            for i in range(min(tz, n)):
+                r[i] = 0
     elif op in ("eq", "ne", "ult", "ule", "slt", "sle", "uaddo", "usubo", "umulo", "saddo", "ssubo",
                 "smulo"):
         s = frozenset()
@@ -283,7 +302,7 @@ def bv(t):
         a, b = bv(t.args[1]), bv(t.args[2])
         r = []
         for i in range(n):
-            if a[i] == b[i]:
+            if a[i] == b[i] and not (isinstance(a[i], tuple) and a[i][0] == "d"):
                 r.append(a[i])
             else:
                 r.append(_mkdep(_dep_of(c) | _dep_of(a[i]) | _dep_of(b[i])))
@@ -1052,9 +1071,12 @@ def _assignments(support):
     return None, rows
 
 
-def equiv(a, b, max_bits=EQUIV_MAX_BITS):
-    """True / False / None(undecided).  On False, equiv.witness holds a distinguishing assignment."""
+def equiv(a, b, max_bits=EQUIV_MAX_BITS, constraints=None):
+    """True / False / None(undecided).  On False, equiv.witness holds a distinguishing assignment.
+    constraints: list of (term, int value) — only assignments on which every constraint holds are compared."""
     equiv.witness = None
+    if constraints:
+        return _equiv_constrained(a, b, max_bits, constraints)
     if a is b:
         return True
     if a.bits != b.bits:
@@ -1063,6 +1085,34 @@ def equiv(a, b, max_bits=EQUIV_MAX_BITS):
         return True
     va, vb = bv(a), bv(b)
     all_syms = syms(a) | syms(b)
+    # one pass over the union of the supports of all differing bits, when it is small enough
+    union = frozenset()
+    diff = []
+    for i in range(a.bits):
+        xa, xb = va[i], vb[i]
+        if xa == xb and not (isinstance(xa, tuple) and xa[0] == "d"):
+            continue
+        diff.append(i)
+        union = union | _dep_of(xa) | _dep_of(xb)
+    if not diff:
+        return True
+    if len(union) <= max_bits and not any(s.startswith("?") for (s, _) in union) and _np is not None:
+        try:
+            envs, rows = _assignments(union)
+            zero = _np.zeros(rows, dtype=_np.uint64)
+            env = dict((s, envs.get(s, zero)) for s in all_syms)
+            ra = _ev(a, env, {})
+            rb = _ev(b, env, {})
+            ne = _np.nonzero(_np.asarray(ra != rb))[0] if isinstance(ra, _np.ndarray) or isinstance(rb, _np.ndarray) else ([] if ra == rb else [0])
+            if len(ne):
+                k = int(ne[0])
+                equiv.witness = dict((s, int(v[k]) if isinstance(v, _np.ndarray) else int(v)) for s, v in env.items())
+                equiv.witness["_got"] = int(ra[k]) if isinstance(ra, _np.ndarray) else int(ra)
+                equiv.witness["_want"] = int(rb[k]) if isinstance(rb, _np.ndarray) else int(rb)
+                return False
+            return True
+        except NotEvaluable:
+            return None
     for i in range(a.bits):
         xa, xb = va[i], vb[i]
         if xa == xb and not (isinstance(xa, tuple) and xa[0] == "d"):
@@ -1107,3 +1157,103 @@ def _equiv_bit(a, b, i, sup, all_syms):
 
 
 equiv.witness = None
+
+
+def _cons_closure(sup, constraints):
+    """constraints whose (sym, bit) support is connected to sup, and the enlarged support"""
+    cons = []
+    pending = [(t, v, deps(t)) for (t, v) in constraints]
+    changed = True
+    while changed:
+        changed = False
+        rest = []
+        for (t, v, d) in pending:
+            if d & sup:
+                cons.append((t, v))
+                if not d <= sup:
+                    sup = sup | d
+                changed = True
+            else:
+                rest.append((t, v, d))
+        pending = rest
+    return sup, cons
+
+
+def _equiv_constrained(a, b, max_bits, constraints):
+    """equivalence on the assignments that satisfy every constraint.  Constraints whose support shares no input bit
+    (transitively) with the compared bits are dropped: assuming they are satisfiable they do not restrict those bits."""
+    if a is b:
+        return True
+    if a.bits != b.bits:
+        return False
+    if _np is None:
+        return None
+    all_syms = syms(a) | syms(b)
+    for (t, _) in constraints:
+        all_syms = all_syms | syms(t)
+
+    def run(sup, cons, bit):
+        if any(x.startswith("?") for (x, _) in sup):
+            return None
+        if len(sup) > max_bits:
+            return None
+        try:
+            envs, rows = _assignments(sup)
+            zero = _np.zeros(rows, dtype=_np.uint64)
+            env = dict((x, envs.get(x, zero)) for x in all_syms)
+            memo = {}
+            ok = _np.ones(rows, dtype=bool)
+            for (t, v) in cons:
+                r = _ev(t, env, memo)
+                ok &= (_np.asarray(r) == v) if isinstance(r, _np.ndarray) else _np.full(rows, r == v)
+            ra = _ev(a, env, memo)
+            rb = _ev(b, env, memo)
+            ra = ra if isinstance(ra, _np.ndarray) else _np.full(rows, ra, dtype=_np.uint64)
+            rb = rb if isinstance(rb, _np.ndarray) else _np.full(rows, rb, dtype=_np.uint64)
+            if bit is not None:
+                ra = (ra >> _np.uint64(bit)) & _np.uint64(1)
+                rb = (rb >> _np.uint64(bit)) & _np.uint64(1)
+            ne = _np.nonzero(ok & (ra != rb))[0]
+            if len(ne):
+                k = int(ne[0])
+                equiv.witness = dict((x, int(v[k])) for x, v in env.items())
+                equiv.witness["_got"] = int(ra[k])
+                equiv.witness["_want"] = int(rb[k])
+                if bit is not None:
+                    equiv.witness["_bit"] = bit
+                return False
+            return True
+        except NotEvaluable:
+            return None
+
+    def closure(base):
+        """connected constraints; when their joint support is too wide the widest are dropped (comparing on a
+        superset of the admissible inputs: a proof of equality stays valid, a difference does not)"""
+        pool = list(constraints)
+        weakened = False
+        while True:
+            sup, cons = _cons_closure(base, pool)
+            if len(sup) <= max_bits or not cons:
+                return sup, cons, weakened
+            widest = max(cons, key=lambda c: len(deps(c[0])))
+            pool = [c for c in pool if not (c[0] is widest[0] and c[1] == widest[1])]
+            weakened = True
+
+    sup, cons, weak = closure(deps(a) | deps(b))
+    if len(sup) <= max_bits:
+        r = run(sup, cons, None)
+        if r is True or (r is False and not weak):
+            return r
+    va, vb = bv(a), bv(b)
+    for i in range(a.bits):
+        xa, xb = va[i], vb[i]
+        if xa == xb and not (isinstance(xa, tuple) and xa[0] == "d"):
+            continue
+        sup, cons, weak = closure(_dep_of(xa) | _dep_of(xb))
+        r = run(sup, cons, i)
+        if r is False and weak:
+            equiv.witness = None
+            return None
+        if r is not True:
+            return r
+    return True
